@@ -3,12 +3,12 @@
 import glob, os, subprocess, sys
 spec = os.path.join(os.path.dirname(os.path.dirname(os.path.abspath(__file__))), 'spec')
 bad = 0
-for f in sorted(glob.glob(os.path.join(spec, '*.tla'))):
+for f in sorted(glob.glob(os.path.join(spec, '*.tla')) + glob.glob(os.path.join(spec, 'apalache', '*.tla'))):
     r = subprocess.run(['java', '-cp', '/opt/veriftools/tla/tla2tools.jar:/opt/veriftools/tla/CommunityModules-deps.jar',
                         'tla2sany.SANY', f], cwd=spec, stdout=subprocess.PIPE, stderr=subprocess.STDOUT, text=True)
     if r.returncode != 0 or 'Semantic errors' in r.stdout or 'Parse Error' in r.stdout or 'Fatal errors' in r.stdout or '*** Errors' in r.stdout:
         print('SANY failed on', f)
         print(r.stdout[-2000:])
         bad += 1
-print('sany: %d modules, %d bad' % (len(glob.glob(os.path.join(spec, '*.tla'))), bad))
+print('sany: %d modules, %d bad' % (len(glob.glob(os.path.join(spec, '*.tla')) + glob.glob(os.path.join(spec, 'apalache', '*.tla'))), bad))
 sys.exit(1 if bad else 0)
